@@ -263,6 +263,10 @@ def apply(w, mon, stim, rootname, role):
             return V("integrity_defect_delivered", f"{dg}:{g}", "messages with wrong or missing CompIDs, a missing or too-low MsgSeqNum are never handed to the application")
         if g != "seqreset" and a["E"] != b["E"]:
             return V("integrity_defect_advanced_counter", f"{dg}:{g}", "never advance the inbound counter")
+    if low and g != "seqreset" and not a["dead"]:
+        # tolerated without a disconnect (only while a resend is awaited) - but then never acted upon
+        if written or a["nlogout"] != b["nlogout"] or a["O"] != b["O"]:
+            return V("too_low_message_acted_upon", f"{dg}:{g}", "messages with a too-low MsgSeqNum are never handed to the application (nor answered)")
     if integrity or low_strict:
         if a["nlogout"] != b["nlogout"]:
             return V("integrity_defect_acted_upon", f"{dg}:{g}", "never handed to the application")
